@@ -94,3 +94,8 @@ claim("C09", "hostile",
       "A victim node in a generated reachable state receives sequences of up to 20 datagrams (random bytes, messages from the independent encoder with syntactically valid but semantically arbitrary op streams and non-canonical blocks, and bit-flipped / truncated / spliced variants) interleaved with evaluations; decoding and processing must not panic, replies must serialize, per-copy frontiers stay monotone, live and dead stay disjoint with self live, and the node can still run a round afterwards. Exploration.",
       "Id universe of 48 short ids (the statement's digest-fits precondition); memory/time exhaustion by decompression bombs is out of the statement and not generated.",
       "DESIGN.md 4/C09")
+claim("C19", "srv",
+      "fault-script generation against a scripted Transport/Socket on a paused runtime (schedule owned by the harness) + loopback UDP smoke",
+      "Generated scripts of send outcomes, arriving messages, delays, user lock acquisitions, fatal recv errors, recv panics and shutdown requests drive the real spawn_chitchat server; without a fatal event the loop must keep heartbeating, keep emitting SYNs, answer a probe SYN and let with_chitchat return; a fatal error or panic must surface through the termination watcher; shutdown must always complete. A stall is detected deterministically as a virtual-time timeout. Exploration.",
+      "Single-threaded paused runtime (no parallel interleavings); the UDP smoke uses real time and its timeouts are inconclusive.",
+      "DESIGN.md 4/C19")
